@@ -804,10 +804,11 @@ class Interp:
         i = self.fresh_int('it_' + str(getattr(target, 'name', 'i')))
         # the body only runs if the range is non-empty
         ctx.add(core.to_z3_bool((i >= lo) & (i < hi)))
-        self.havoc_assigned(body, env)
+        entry = dict((k, v) for k, v in env.items() if isinstance(v, (int, SInt)))
+        self.havoc_assigned(body, env, i, lo, hi, entry)
         self.assign(target, i, env, node)
         self.ex(body, env)
-        self.havoc_assigned(body, env)
+        self.havoc_assigned(body, env, i, lo, hi, entry, post=True)
         if parallel:
             acc, loc = self.accesses, self.locals_created
             self.accesses, self.locals_created = outer_acc, outer_loc
@@ -815,10 +816,26 @@ class Interp:
                 outer_acc.extend(acc)
             self.independence(acc, loc, i, lo, hi, node)
 
-    def havoc_assigned(self, body, env):
-        """scalars assigned inside an abstracted loop have an arbitrary value before / after an iteration"""
+    def havoc_assigned(self, body, env, i=None, lo=None, hi=None, entry=None, post=False):
+        """scalars assigned inside an abstracted loop have an arbitrary value before / after an iteration.
+        Monotone counters (every assignment in the body is `v = v + c` / `v += c` with a constant c >= 0) get the
+        loop invariant  v_entry <= v <= v_entry + c * (iterations so far)  instead of a full havoc."""
         from Cython.Compiler import Visitor
         names = {}
+        assigns = {}
+
+        def const_step(n, name):
+            """c if node n is `name + c` with an integer constant c >= 0"""
+            k = type(n).__name__
+            if k in ('CoerceToTempNode', 'TypecastNode', 'CoerceFromPyTypeNode', 'CoerceToPyTypeNode'):
+                return const_step(getattr(n, 'arg', None) or getattr(n, 'operand', None), name)
+            if k in ('AddNode', 'NumBinopNode', 'IntBinopNode') and getattr(n, 'operator', '') == '+':
+                a, b = n.operand1, n.operand2
+                for x, y in ((a, b), (b, a)):
+                    if type(x).__name__ == 'NameNode' and str(x.name) == name and type(y).__name__ == 'IntNode':
+                        c = int(str(y.value).rstrip('LlUu'), 0)
+                        return c if c >= 0 else None
+            return None
 
         class A(Visitor.TreeVisitor):
             def visit_Node(s, n):
@@ -826,23 +843,42 @@ class Interp:
 
             def visit_SingleAssignmentNode(s, n):
                 if type(n.lhs).__name__ == 'NameNode':
-                    names[str(n.lhs.name)] = n.lhs.type
+                    nm = str(n.lhs.name)
+                    names[nm] = n.lhs.type
+                    assigns.setdefault(nm, []).append(const_step(n.rhs, nm))
                 s.visitchildren(n)
 
             def visit_InPlaceAssignmentNode(s, n):
                 if type(n.lhs).__name__ == 'NameNode':
-                    names[str(n.lhs.name)] = n.lhs.type
+                    nm = str(n.lhs.name)
+                    names[nm] = n.lhs.type
+                    c = None
+                    if n.operator == '+' and type(n.rhs).__name__ == 'IntNode':
+                        c = int(str(n.rhs.value).rstrip('LlUu'), 0)
+                        c = c if c >= 0 else None
+                    assigns.setdefault(nm, []).append(c)
                 s.visitchildren(n)
 
             def visit_ForFromStatNode(s, n):
                 if type(n.target).__name__ == 'NameNode':
                     names[str(n.target.name)] = n.target.type
+                    assigns.setdefault(str(n.target.name), []).append(None)
                 s.visitchildren(n)
         A().visit(body)
         for n, t in names.items():
             if is_c_int(t):
-                lo, hi = int_range(t)
-                env[n] = self.fresh_int('hv_' + n, lo, hi)
+                tlo, thi = int_range(t)
+                steps = assigns.get(n, [None])
+                v0 = (entry or {}).get(n, env.get(n))
+                if all(c is not None for c in steps) and i is not None and isinstance(v0, (int, SInt)) and is_c_int(t):
+                    cmax = max(steps) if steps else 0
+                    v = self.fresh_int('cnt_' + n)
+                    upto = (hi - lo) if post else (i - lo)
+                    core.cur().add(core.to_z3_bool((v >= v0) & (v <= v0 + cmax * upto)))
+                    env[n] = v
+                    self.notes.append('counter invariant for %s' % n)
+                else:
+                    env[n] = self.fresh_int('hv_' + n, tlo, thi)
             elif is_c_float(t):
                 env[n] = self.fresh_real('hv_' + n)
 
